@@ -263,10 +263,7 @@ def execute(case):
                         q.sample_alpha()
                     got = q.theta_alpha.detach().clone()
                 finally:
-                    if isinstance(q, MPSBaseQtz):
-                        q.theta_alpha = saved
-                    else:
-                        q.__dict__['theta_alpha'] = saved
+                    q.theta_alpha = saved      # plain attribute or buffer: nn.Module.__setattr__ puts it back where it lives
                     q.training = was
                 T = opts['temperature']
                 torch.manual_seed(s)
